@@ -63,6 +63,20 @@ SIG = {
         params=[("array", "listT"), ("begin", "Z"), ("end", "Z"), ("i", "Z")], mut="array", ret="T", ret_array=False,
         draws=True, wfuel=None, exhausted="array[begin]", rec=True, call_fuel="S (length ARG)",
         alias="rand_select Op fuel v_array v_begin v_end v_i ds"),
+    # the nested generator of uniform_reference_points; `ref` is a float vector (numpy.zeros(nobj)), the ints are Z;
+    # int / int is true division of the two ints converted to floats (exact below 2^53)
+    "gen_refs_recursive": dict(
+        parent="uniform_reference_points",
+        params=[("ref", "listT"), ("nobj", "Z"), ("left", "Z"), ("total", "Z"), ("depth", "Z")], mut="ref", ret="llT",
+        ret_array=False, draws=False, wfuel=None, exhausted="[]", rec=True, call_fuel="S (Z.to_nat ARGnobj)",
+        locals={"points": "llT"},
+        alias="gen_refs_model Op fuel v_ref v_nobj v_left v_total v_depth"),
+    # numpy primitives (declared): numpy.zeros(n) = n zeros, numpy.array(rows) = the rows, `a *= s` / `a += c` on an array and
+    # a scalar are elementwise; int op float converts the int (float(z)); p=4 / scaling=None defaults are call-site sugar
+    "uniform_reference_points": dict(
+        params=[("nobj", "Z"), ("p", "Z"), ("scaling", "optT")], mut=None, ret="llT", ret_array=False, draws=False,
+        wfuel=None, exhausted=None, rec=False, defaults_ok=True, locals={},
+        alias="ref_points Op (Z.to_nat v_nobj) (Z.to_nat v_p) v_scaling"),
 }
 # selSPEA2 is translated by SpeaTr (below): individuals are pairs (fitness.values, fitness.wvalues) of number lists and
 # are identified with their index in the input list (the model's convention: the result is the list chosen_indices);
@@ -86,8 +100,9 @@ SPEA = dict(
 FUNCTIONS = list(SIG) + ["selSPEA2"] + [u["key"] for u in SPEA["units"]]
 GEN_NAME = {"_partition": "gen_partition", "_randomizedPartition": "gen_randomizedPartition",
             "_randomizedSelect": "gen_randomizedSelect", "selSPEA2": "gen_selSPEA2",
-            "selSPEA2.fill": "gen_selSPEA2_fill", "selSPEA2.trunc": "gen_selSPEA2_trunc"}
-COQ_TYPE = {"Z": "Z", "T": "T", "listT": "list T", "llT": "list (list T)", "bool": "bool", "nat": "nat",
+            "selSPEA2.fill": "gen_selSPEA2_fill", "selSPEA2.trunc": "gen_selSPEA2_trunc",
+            "gen_refs_recursive": "gen_refs_recursive", "uniform_reference_points": "gen_uniform_reference_points"}
+COQ_TYPE = {"optT": "option T", "Z": "Z", "T": "T", "listT": "list T", "llT": "list (list T)", "bool": "bool", "nat": "nat",
             "listnat": "list nat", "llnat": "list (list nat)", "inds": "list (list T * list T)", "ind": "(list T * list T)"}
 DEFAULT = {"nat": "0%nat", "listnat": "(@nil nat)", "ind": "(@nil T, @nil T)", "listT": "(@nil T)", "T": "(n_ofZ Op 0%Z)"}
 ELT = {"listnat": "nat", "llnat": "listnat", "inds": "ind", "llT": "listT", "listT": "T"}
@@ -141,7 +156,12 @@ def assigned_names(stmts):
                 walk(s.body)
                 if s.orelse:
                     refuse(s, "loop with else")
+            elif isinstance(s, ast.Expr) and isinstance(s.value, ast.Call) and isinstance(s.value.func, ast.Attribute) \
+                    and s.value.func.attr in ("append", "extend") and isinstance(s.value.func.value, ast.Name):
+                add(s.value.func.value.id)
             elif isinstance(s, (ast.Return, ast.Expr, ast.Pass)):
+                pass
+            elif isinstance(s, ast.FunctionDef) and s.name in SIG:
                 pass
             else:
                 refuse(s, "statement outside the grammar")
@@ -176,15 +196,44 @@ class FnTr(object):
         self.uses_draws = False
 
     # ---- expressions: return (text, type) --------------------------------------------------------
-    def expr(self, e, env):
+    def expr(self, e, env, want=None):
         if isinstance(e, ast.Constant):
             if isinstance(e.value, bool) or not isinstance(e.value, int):
                 refuse(e, "constant %r outside the grammar" % (e.value,))
             return zlit(e.value), "Z"
+        if isinstance(e, ast.List) and not e.elts and want == "llT":
+            return "(@nil (list T))", "llT"
         if isinstance(e, ast.Name):
             if e.id not in env:
                 refuse(e, "name %s is not bound here (or was clobbered by a call)" % e.id)
+            if e.id in env.get("$esc", ()):
+                refuse(e, "%s is used after it was stored in a list (aliasing is not modelled)" % e.id)
             return v(e.id), env[e.id]
+        if isinstance(e, ast.Call) and isinstance(e.func, ast.Attribute) and e.func.attr == "copy" and not e.args \
+                and not e.keywords and isinstance(e.func.value, ast.Name):
+            a, ta = self.expr(e.func.value, env)
+            if ta != "listT":
+                refuse(e, "copy of something else than a number vector")
+            return a, ta                          # values: a copy is the value itself
+        if isinstance(e, ast.Call) and isinstance(e.func, ast.Attribute) and isinstance(e.func.value, ast.Name) \
+                and e.func.value.id == "numpy" and len(e.args) == 1 and not e.keywords:
+            if e.func.attr == "zeros":
+                a, ta = self.expr(e.args[0], env)
+                if ta != "Z":
+                    refuse(e, "numpy.zeros of a non-int")
+                return "(repeat (n_ofZ Op 0%%Z) (Z.to_nat %s))" % a, "listT"
+            if e.func.attr == "array":
+                a0 = e.args[0]
+                if isinstance(a0, ast.Call) and isinstance(a0.func, ast.Name) and a0.func.id in SIG:
+                    text, cs, arrname = self.call(a0, env, {})
+                    if cs["ret"] != "llT" or cs["ret_array"] or cs["draws"] or arrname is not None:
+                        refuse(e, "numpy.array of a call outside the grammar")
+                    return "(%s)" % text, "llT"
+                a, ta = self.expr(a0, env)
+                if ta != "llT":
+                    refuse(e, "numpy.array of something else than a list of number vectors")
+                return a, "llT"
+            refuse(e, "numpy function outside the grammar")
         if isinstance(e, ast.UnaryOp) and isinstance(e.op, ast.USub):
             a, ta = self.expr(e.operand, env)
             if ta != "Z":
@@ -194,6 +243,8 @@ class FnTr(object):
             a, ta = self.expr(e.left, env)
             b, tb = self.expr(e.right, env)
             if ta == "Z" and tb == "Z":
+                if isinstance(e.op, ast.Div):         # true division of ints: float(a) / float(b)
+                    return "(n_div Op (n_ofZ Op %s) (n_ofZ Op %s))" % (a, b), "T"
                 op = {ast.Add: "+", ast.Sub: "-", ast.Mult: "*"}.get(type(e.op))
                 if op is None:
                     refuse(e, "integer operator %s outside the grammar" % type(e.op).__name__)
@@ -203,7 +254,14 @@ class FnTr(object):
                 if op is None:
                     refuse(e, "number operator %s outside the grammar" % type(e.op).__name__)
                 return "(%s Op %s %s)" % (op, a, b), "T"
-            refuse(e, "mixed int / number arithmetic")
+            if {ta, tb} == {"Z", "T"}:                 # int op float: the int is converted
+                op = {ast.Add: "n_add", ast.Sub: "n_sub", ast.Mult: "n_mul", ast.Div: "n_div"}.get(type(e.op))
+                if op is None:
+                    refuse(e, "number operator %s outside the grammar" % type(e.op).__name__)
+                a2 = a if ta == "T" else "(n_ofZ Op %s)" % a
+                b2 = b if tb == "T" else "(n_ofZ Op %s)" % b
+                return "(%s Op %s %s)" % (op, a2, b2), "T"
+            refuse(e, "arithmetic between %s and %s" % (ta, tb))
         if isinstance(e, ast.Subscript):
             if isinstance(e.slice, ast.Slice):
                 refuse(e, "slice")
@@ -282,9 +340,16 @@ class FnTr(object):
         arrname = None
         for (pn, pt), a in zip(cs["params"], c.args):
             if pn == cs["mut"]:
-                if not isinstance(a, ast.Name):
+                if isinstance(a, ast.Call) and isinstance(a.func, ast.Attribute) and a.func.attr == "copy" \
+                        and not cs["ret_array"]:
+                    pass                          # the callee works on a copy: the caller's object is untouched
+                elif isinstance(a, ast.Call) and isinstance(a.func, ast.Attribute) and isinstance(a.func.value, ast.Name) \
+                        and a.func.value.id == "numpy" and a.func.attr == "zeros" and not cs["ret_array"]:
+                    pass                          # a fresh array nobody else refers to
+                elif not isinstance(a, ast.Name):
                     refuse(a, "the mutated argument of %s is not a plain name" % f)
-                arrname = a.id
+                else:
+                    arrname = a.id
             t, ty = self.expr(a, env)
             if ty != pt:
                 refuse(a, "argument %s of %s has type %s, expected %s" % (pn, f, ty, pt))
@@ -296,7 +361,10 @@ class FnTr(object):
             if f == self.name:
                 head += " fuel"
             else:
-                head += " (%s)" % cs["call_fuel"].replace("ARG", v(arrname))
+                fuel = cs["call_fuel"]
+                for (pn, _), t in zip(cs["params"], args):
+                    fuel = fuel.replace("ARG" + pn, t)
+                head += " (%s)" % fuel.replace("ARG", v(arrname) if arrname else "?")
         text = "%s %s%s" % (head, " ".join(args), " ds" if cs["draws"] else "")
         return text, cs, arrname
 
@@ -315,17 +383,47 @@ class FnTr(object):
             return go()
         if isinstance(s, ast.Pass):
             return go()
+        if isinstance(s, ast.FunctionDef):
+            if SIG.get(s.name, {}).get("parent") != self.name or ctx.get("in_loop") or s.name in env:
+                refuse(s, "nested function outside the signature table")
+            return go()                           # translated on its own (gen_<name>)
+        if isinstance(s, ast.If) and isinstance(s.test, ast.Compare) and len(s.test.ops) == 1 \
+                and isinstance(s.test.ops[0], ast.IsNot) and isinstance(s.test.left, ast.Name) \
+                and isinstance(s.test.comparators[0], ast.Constant) and s.test.comparators[0].value is None:
+            o = s.test.left.id
+            if env.get(o) != "optT" or s.orelse or has_return(s.body):
+                refuse(s, "`is not None` test outside `if <optional number> is not None:` without else / return")
+            names = [n for n in assigned_names(s.body)]
+            for n in names:
+                if n not in env:
+                    refuse(s, "name %s is first bound inside an if" % n)
+            if not names or o in names:
+                refuse(s, "if without effect / rebinding the tested name")
+            tup = "(%s)" % ", ".join(v(n) for n in names) if len(names) != 1 else v(names[0])
+            env2 = dict(env)
+            env2[o] = "T"
+            a = self.block(s.body, env2, dict(ctx, tail=lambda env3: tup))
+            q = "'" if len(names) > 1 else ""
+            return "let %s%s := match %s with Some %s => (\n%s\n) | None => %s end in\n%s" % (q, tup, v(o), v(o), a, tup, go())
+        if isinstance(s, ast.AugAssign) and isinstance(s.target, ast.Name) and env.get(s.target.id) == "llT" \
+                and isinstance(s.op, (ast.Mult, ast.Add)):
+            x, tx = self.expr(s.value, env)
+            if tx != "T":
+                refuse(s, "array op= something else than a number")
+            op = "n_mul" if isinstance(s.op, ast.Mult) else "n_add"
+            n = s.target.id
+            return "let %s := map (map (fun x_ => %s Op x_ %s)) %s in\n%s" % (v(n), op, x, v(n), go())
         if isinstance(s, ast.Return):
             if s.value is None:
                 refuse(s, "return without a value")
             if ctx.get("no_return"):
                 refuse(s, "return inside this kind of loop")
             mut = self.sig["mut"]
-            if mut not in env:
+            if mut not in env and self.sig["ret_array"]:
                 refuse(s, "the array parameter is not bound at return")
             if isinstance(s.value, ast.Call) and isinstance(s.value.func, ast.Name) and s.value.func.id in SIG:
                 text, cs, arrname = self.call(s.value, env, ctx)
-                if arrname != mut:
+                if arrname != mut and (cs["ret_array"] or self.sig["ret_array"] or arrname is not None):
                     refuse(s, "tail call on an array other than the parameter")
                 if cs["ret"] != self.sig["ret"]:
                     refuse(s, "tail call returns another type")
@@ -337,12 +435,12 @@ class FnTr(object):
                         pat = "(%s, ds)" % pat
                     if not cs["ret_array"] and self.sig["ret_array"]:
                         refuse(s, "the callee does not return the array the caller must return")
-                    res = "let '%s := %s in %s" % (pat, text, self.pack(v(mut), "r_"))
+                    res = "let '%s := %s in %s" % (pat, text, self.pack(v(mut) if mut else None, "r_"))
             else:
                 val, ty = self.expr(s.value, env)
                 if ty != self.sig["ret"]:
                     refuse(s, "returns a value of type %s, expected %s" % (ty, self.sig["ret"]))
-                res = self.pack(v(mut), val)
+                res = self.pack(v(mut) if mut else None, val)
             return ctx["wrap_ret"](res)
         if isinstance(s, ast.Assign):
             if len(s.targets) != 1:
@@ -369,7 +467,7 @@ class FnTr(object):
                 pat = v(t.id)
                 if cs["ret_array"]:
                     pat = "(%s, %s)" % (v(arrname), pat)
-                else:
+                elif arrname is not None:
                     env.pop(arrname, None)          # the callee's final array is not returned: clobbered
                 if cs["draws"]:
                     pat = "(%s, ds)" % pat
@@ -389,7 +487,10 @@ class FnTr(object):
                 for (tn, ty), tg in zip(tmps, t.elts):
                     out += self.assign_to(tg, tn, ty, env)
                 return out + go()
-            x, ty = self.expr(val, env)
+            want = self.sig.get("locals", {}).get(t.id) if isinstance(t, ast.Name) else None
+            x, ty = self.expr(val, env, want)
+            if isinstance(t, ast.Name) and "$esc" in env:
+                env["$esc"] = env["$esc"] - {t.id}          # rebound to a new value
             return self.assign_to(t, x, ty, env) + go()
         if isinstance(s, ast.AugAssign):
             if not isinstance(s.target, ast.Name):
@@ -399,6 +500,54 @@ class FnTr(object):
             ast.copy_location(e.left, s)
             x, ty = self.expr(e, env)
             return self.assign_to(s.target, x, ty, env) + go()
+        if isinstance(s, ast.Expr) and isinstance(s.value, ast.Call) and isinstance(s.value.func, ast.Attribute) \
+                and isinstance(s.value.func.value, ast.Name) and s.value.func.attr in ("append", "extend") \
+                and len(s.value.args) == 1 and not s.value.keywords:
+            lst = s.value.func.value.id
+            if env.get(lst) != "llT":
+                refuse(s, "append / extend on something else than a list of number vectors")
+            a = s.value.args[0]
+            if s.value.func.attr == "append":
+                if not isinstance(a, ast.Name) or env.get(a.id) != "listT":
+                    refuse(s, "append of something else than a number vector held in a name")
+                if ctx.get("in_loop"):
+                    refuse(s, "a vector is stored in a list inside a loop (aliasing is not modelled)")
+                x, _ = self.expr(a, env)
+                env["$esc"] = frozenset(env.get("$esc", ())) | {a.id}
+                return "let %s := %s ++ [%s] in\n%s" % (v(lst), v(lst), x, go())
+            if isinstance(a, ast.Call) and isinstance(a.func, ast.Name) and a.func.id in SIG:
+                text, cs, arrname = self.call(a, env, ctx)
+                if cs["ret"] != "llT" or cs["ret_array"] or cs["draws"] or arrname is not None:
+                    refuse(s, "extend with a call outside the grammar")
+                return "let %s := %s ++ %s in\n%s" % (v(lst), v(lst), text, go())
+            refuse(s, "extend with something else than a call of a table function")
+        if isinstance(s, ast.For):
+            if s.orelse or any(isinstance(n, (ast.Break, ast.Continue, ast.Return)) for n in ast.walk(s)):
+                refuse(s, "for with else / break / continue / return")
+            it = s.iter
+            if not (isinstance(it, ast.Call) and isinstance(it.func, ast.Name) and it.func.id == "range" and not it.keywords
+                    and len(it.args) in (1, 2) and isinstance(s.target, ast.Name)):
+                refuse(s, "for over something else than range(..) with a plain loop variable")
+            bounds = [self.expr(a, env) for a in it.args]
+            if any(t != "Z" for _, t in bounds):
+                refuse(s, "range bounds are not ints")
+            lo, hi = ("0%Z", bounds[0][0]) if len(bounds) == 1 else (bounds[0][0], bounds[1][0])
+            if s.target.id in env:
+                refuse(s, "the loop variable %s is already bound" % s.target.id)
+            names = [n for n in assigned_names(s.body) if n != s.target.id]
+            for n in names:
+                if n not in env:
+                    refuse(s, "name %s is first bound inside a loop" % n)
+            if not names:
+                refuse(s, "loop without effect")
+            tup = "(%s)" % ", ".join(v(n) for n in names) if len(names) != 1 else v(names[0])
+            pat = "'%s" % tup if len(names) > 1 else tup
+            env2 = dict(env)
+            env2[s.target.id] = "Z"
+            sub = dict(ctx, in_loop=True, no_return=True, tail=lambda env3: tup)
+            body = self.block(s.body, env2, sub)
+            return "let %s := for_ (zrange %s %s) (fun %s st_ => let %s := st_ in\n%s) %s in\n%s" % (
+                pat, lo, hi, v(s.target.id), pat, body, tup, go())
         if isinstance(s, ast.If):
             c = self.cond(s.test, env)
             if has_return(s.body) or has_return(s.orelse) or not rest:
@@ -409,14 +558,24 @@ class FnTr(object):
                 a = self.block(s.body, env, sub)
                 b = self.block(s.orelse, env, sub)
                 return "if %s then (\n%s\n) else (\n%s\n)" % (c, a, b)
-            names = [n for n in assigned_names(s.body + s.orelse)]
-            for n in names:
-                if n not in env:
-                    refuse(s, "name %s is first bound inside an if" % n)
+            later = [n.id for st in rest for n in ast.walk(st) if isinstance(n, ast.Name) and isinstance(n.ctx, ast.Load)]
+            names = []
+            for n in assigned_names(s.body + s.orelse):
+                if n in env:
+                    names.append(n)
+                elif n in later or ctx.get("in_loop"):
+                    refuse(s, "name %s is first bound inside an if and may be used afterwards" % n)
             tup = "(%s)" % ", ".join(v(n) for n in names) if len(names) != 1 else v(names[0])
-            sub = dict(ctx, tail=lambda env2: tup)
+            escs = []
+
+            def tail_if(env2):
+                escs.append(env2.get("$esc", frozenset()))
+                return tup
+            sub = dict(ctx, tail=tail_if)
             a = self.block(s.body, env, sub)
             b = self.block(s.orelse, env, sub)
+            for x in escs:
+                env["$esc"] = frozenset(env.get("$esc", ())) | x
             if not names:
                 return go()
             q = "'" if len(names) > 1 else ""
@@ -489,15 +648,18 @@ class FnTr(object):
     def translate(self):
         fn = self.fn
         a = fn.args
-        if a.vararg or a.kwarg or a.kwonlyargs or a.defaults or a.posonlyargs or fn.decorator_list:
+        if a.vararg or a.kwarg or a.kwonlyargs or (a.defaults and not self.sig.get("defaults_ok")) or a.posonlyargs \
+                or fn.decorator_list:
             refuse(fn, "parameter list / decorators outside the grammar")
         if [x.arg for x in a.args] != [p for p, _ in self.sig["params"]]:
             refuse(fn, "parameters %r differ from the signature table" % [x.arg for x in a.args])
         for n in ast.walk(fn):
-            if isinstance(n, (ast.Global, ast.Nonlocal, ast.Lambda, ast.FunctionDef, ast.Try, ast.With, ast.Yield,
+            if isinstance(n, (ast.Global, ast.Nonlocal, ast.Lambda, ast.Try, ast.With, ast.Yield,
                               ast.YieldFrom, ast.ListComp, ast.GeneratorExp, ast.Delete, ast.Raise, ast.Assert)) \
                     and n is not fn:
                 refuse(n, "construct outside the grammar")
+            if isinstance(n, ast.FunctionDef) and n is not fn and n not in fn.body:
+                refuse(n, "nested function outside the grammar")
         env = {p: t for p, t in self.sig["params"]}
         for n in assigned_names(fn.body):
             if n in SIG or n in ("random", "len"):
@@ -508,7 +670,7 @@ class FnTr(object):
         body = self.block(fn.body, env, ctx)
         if self.sig["rec"]:
             ex = ast.parse(self.sig["exhausted"], mode="eval").body
-            xv, xt = self.expr(ex, env)
+            xv, xt = self.expr(ex, env, self.sig["ret"])
             body = "match fuel with\n| O => %s\n| S fuel =>\n%s\nend" % (self.pack(v(self.sig["mut"]), xv), body)
         return "%s\n%s." % (self.header(), body)
 
@@ -1010,9 +1172,18 @@ def translate_source(text, origin="deap/tools/emo.py", forced=None):
         elif name in forced:
             why = forced[name]
         else:
-            fns = [n for n in tree.body if isinstance(n, ast.FunctionDef) and n.name == name]
-            if len(fns) != 1 or seen.get(name, ("",))[0] != "def" or seen[name][1] != fns[0].lineno:
-                why = Refuse("Module", "%s is not defined exactly once at module level" % name)
+            parent = SIG[name].get("parent")
+            if parent is None:
+                fns = [n for n in tree.body if isinstance(n, ast.FunctionDef) and n.name == name]
+                found = len(fns) == 1 and seen.get(name, ("",))[0] == "def" and seen[name][1] == fns[0].lineno
+            else:
+                ps = [n for n in tree.body if isinstance(n, ast.FunctionDef) and n.name == parent]
+                found = len(ps) == 1 and seen.get(parent, ("",))[0] == "def" and seen[parent][1] == ps[0].lineno
+                fns = [n for n in ast.walk(ps[0]) if isinstance(n, ast.FunctionDef) and n.name == name] if found else []
+                found = found and len(fns) == 1 and fns[0] in ps[0].body and name not in seen
+            if not found:
+                why = Refuse("Module", "%s is not defined exactly once%s" % (
+                    name, " at module level" if parent is None else " inside " + parent))
             else:
                 tr = FnTr(name, fns[0])
                 try:
@@ -1020,8 +1191,8 @@ def translate_source(text, origin="deap/tools/emo.py", forced=None):
                     out.append(tr.translate())
                 except Refuse as e:
                     why = e
-                except RecursionError as e:  # noqa
-                    why = Refuse("FunctionDef", "translator recursion limit")
+                except Exception as e:  # noqa  (fail closed, per function)
+                    why = Refuse("FunctionDef", "translator error %s: %s" % (type(e).__name__, e))
         if why is not None:
             out.append(tr.alias(why))
         status[name] = why
@@ -1047,8 +1218,8 @@ def translate_source(text, origin="deap/tools/emo.py", forced=None):
                     status[u["key"]] = sp.unit_status[u["key"]]
             except Refuse as e:
                 why = e
-            except RecursionError:
-                why = Refuse("FunctionDef", "translator recursion limit")
+            except Exception as e:  # noqa  (fail closed)
+                why = Refuse("FunctionDef", "translator error %s: %s" % (type(e).__name__, e))
     if why is not None:
         out += SpeaTr.alias_all(why)
         status["selSPEA2"] = why
